@@ -238,7 +238,7 @@ def c05_tasks(pid, tier, repo, seed, R):
             continue
         kind = info["kind"]
         # (Sequence.index re-loads per element: its loop invariant is stated for the unbuffered store only)
-        meths = [m for m, sp in api.api_of(kind).items() if not sp.get("attr") and m not in ("index", "index3")]
+        meths = [m for m, sp in api.api_of(kind).items() if not sp.get("attr") and m not in ("index", "index3", "index2")]
         roles = (("root", None), ("nested", "dict"), ("nested", "list"))
         for role, rk in roles:
             tasks.append(dict(kind="api", repo=repo, seed=seed, cname=c, role=role, rootkind=rk, methods=meths,
